@@ -29,6 +29,13 @@ def stmtColSafe : Stmt → Bool
   | .alterType .. | .setDefault .. | .dropNotNull .. => false
   | s => s.table != ""
 
+/-- copy of `Stmt.tablePk` (Proofs/FidelityPk.lean): keys are declared at table level only -/
+def stmtTablePk : Stmt → Bool
+  | .createTable _ _ cols _ => cols.all (fun c => c.opts.all (fun o => o.kind != .primaryKey))
+  | .addColumn _ c _ => c.opts.all (fun o => o.kind != .primaryKey)
+  | .modifyColumn _ c => c.opts.all (fun o => o.kind != .primaryKey)
+  | _ => true
+
 def colDefPlain (c : ColDef) : Bool :=
   c.opts.all (fun o => o.kind != .reference && o.kind != .primaryKey && o.hasExpr)
 
@@ -82,6 +89,9 @@ def whyNot (g : Globals) (old new : List Stmt) (dbO dbN : DB) : String :=
 /-- inside the scope of `C05.dump_on_reference_engine` (the whole-schema theorem of C01 with an empty old side: what is
     printed for a loaded script, executed on the empty schema, is the schema the script describes) -/
 def dump (g : Globals) (ss : List Stmt) (db : DB) : Bool := up g [] ss [] db
+
+/-- inside the scope of `C07.value_is_a_function_of_the_schema` -/
+def hash (g : Globals) (ss : List Stmt) : Bool := g.dialect == .mysql && ss.all stmtElemSafe && ss.all stmtTablePk
 
 /-- inside the scope of `C15.export_of_the_reference_schema` -/
 def avro (g : Globals) (ss : List Stmt) : Bool := g.dialect == .mysql && ss.all stmtColSafe
